@@ -301,8 +301,9 @@ where
                     if self.iter().zip(other.iter()).all(|(x, y)| x == y) {
                         return;
                     }
-                } else if otherlen < len {
+                } else if otherlen < len && self.sorted && other.sorted {
                     //check if we need to modify the vector in place or if we can just copy the other
+                    //(only if both are in the same, sorted, order: the order of this collection is retained)
                     if self.contains_subset(other) {
                         self.array = other.array.clone(); //may be cheap if borrowed, expensive if owned
                         return;
@@ -320,13 +321,14 @@ where
         self.array.to_mut().retain(|x| {
             if self.sorted && other.sorted {
                 //optimisation if both are sorted
+                //the index is relative to the slice that was searched
                 match other.array[offset..].binary_search(x) {
                     Ok(index) => {
-                        offset = index + 1;
+                        offset += index + 1;
                         true
                     }
                     Err(index) => {
-                        offset = index + 1;
+                        offset += index;
                         false
                     }
                 }
